@@ -105,7 +105,10 @@ func (k BlockKind) String() string {
 
 // Block is one body-level block.
 type Block struct {
-	Kind    BlockKind
+	Kind BlockKind
+	// Wrap: block-level container around the block: "" or "container"
+	// (DOCX: block-level content control w:sdt; ODT: text:section).
+	Wrap    string
 	Para    *Para
 	Heading *Heading
 	List    *List
@@ -414,6 +417,9 @@ func (d *Doc) Describe() string {
 		b := &d.Blocks[i]
 		switch b.Kind {
 		case BPara:
+			if b.Wrap != "" {
+				sb.WriteString("<" + b.Wrap + ">")
+			}
 			sb.WriteString("P[")
 			para(b.Para)
 			sb.WriteString("]\n")
